@@ -14,6 +14,8 @@
 //! show that the remaining rules alone do not change results).
 use std::collections::HashSet;
 
+use egg::Language;
+
 use rlverif::risinglight::planner::verif as pv;
 use rlverif::risinglight::planner::{Expr, ExprAnalysis, RecExpr};
 use rlverif::risinglight::storage::SecondaryStorageOptions;
@@ -135,6 +137,44 @@ fn run_plan(rt: &tokio::runtime::Runtime, db: &Database, q: &Value) -> Value {
                 .run(rules.iter());
             let same = runner.egraph.find(runner.roots[0]) == runner.egraph.find(runner.roots[1]);
             out["equiv"] = json!(same);
+            out["rules_found"] = json!(rules.len());
+        }
+        if let Some(al) = q.get("alts") {
+            // saturate an e-graph holding the plan with exactly the named rules, then build one
+            // plan per e-node of the root class (children: the cheapest representative) and run each
+            let names: HashSet<String> = al["rules"].as_array().map(|a| a.iter().filter_map(|x| x.as_str().map(String::from)).collect()).unwrap_or_default();
+            let iters = al["iters"].as_u64().unwrap_or(2) as usize;
+            let mut rules: Vec<pv::Rewrite> = vec![];
+            for l in ALL_LISTS {
+                for r in rule_list(l).unwrap() {
+                    if names.contains(r.name.as_str()) && !rules.iter().any(|x| x.name == r.name) {
+                        rules.push(r);
+                    }
+                }
+            }
+            let o = rt.block_on(db.verif_optimizer()).map_err(|e| e.to_string())?;
+            let runner = egg::Runner::<_, _, ()>::new(o.verif_analysis())
+                .with_expr(&plan)
+                .with_iter_limit(iters)
+                .run(rules.iter());
+            let root = runner.egraph.find(runner.roots[0]);
+            let cost_fn = pv::CostFn { egraph: &runner.egraph };
+            let extractor = egg::Extractor::new(&runner.egraph, cost_fn);
+            let mut alts = vec![];
+            for node in runner.egraph[root].nodes.clone() {
+                let expr: RecExpr = node.join_recexprs(|id| extractor.find_best(id).1);
+                let text = expr.to_string();
+                let r = catch(|| -> Result<Vec<Vec<String>>, String> {
+                    let chunks = rt.block_on(db.verif_run_plan(&expr)).map_err(|e| e.to_string())?;
+                    Ok(canon_rows_of(&chunks))
+                });
+                alts.push(match r {
+                    Ok(Ok(rows)) => json!({"plan": text, "class": "ok", "rows": rows}),
+                    Ok(Err(e)) => json!({"plan": text, "class": "err", "msg": e.chars().take(300).collect::<String>()}),
+                    Err(p) => json!({"plan": text, "class": "panic", "msg": p.chars().take(300).collect::<String>()}),
+                });
+            }
+            out["alts"] = json!(alts);
             out["rules_found"] = json!(rules.len());
         }
         let chunks = rt.block_on(db.verif_run_plan(&plan)).map_err(|e| e.to_string())?;
